@@ -119,10 +119,20 @@ impl BlobWriter for FileBlobWriter {
 
         // Write the data to a temporary file and then rename it to the target path
         let tmp_path = path.with_extension(".INCOMPLETE");
+        #[cfg(feature = "verif")]
+        crate::verif::fs_effect("store:begin", path, data);
         let mut file = File::create(&tmp_path)?;
+        #[cfg(feature = "verif")]
+        crate::verif::fs_effect("store:created", path, data);
         file.write_all(data)?;
+        #[cfg(feature = "verif")]
+        crate::verif::fs_effect("store:written", path, data);
         file.sync_all()?;
+        #[cfg(feature = "verif")]
+        crate::verif::fs_effect("store:synced", path, data);
         std::fs::rename(tmp_path, path).map_err(|e| format!("Failed to rename file: {}", e))?;
+        #[cfg(feature = "verif")]
+        crate::verif::fs_effect("store:renamed", path, data);
 
         Ok(())
     }
@@ -135,7 +145,11 @@ impl BlobWriter for FileBlobWriter {
     }
 
     fn delete(&self, path: &Path) -> Result<(), Box<dyn Error + Send + Sync + 'static>> {
+        #[cfg(feature = "verif")]
+        crate::verif::fs_effect("delete:begin", path, &[]);
         std::fs::remove_file(path)?;
+        #[cfg(feature = "verif")]
+        crate::verif::fs_effect("delete:done", path, &[]);
         Ok(())
     }
 
